@@ -189,16 +189,18 @@ def state_tx(kind: int, n: int, dv: int, sv: int, mv: int, val: str) -> str:
     return orc.result()
 
 
-def descr_tx(iface: int, op1: int, op2: int, dv: int, sv: int, mv: int, pdv: int) -> str:
+def descr_tx(iface: int, op1: int, op2: int, dv: int, sv: int, mv: int, pdv: int, op3: int = 0) -> str:
     """
     Descriptor transaction with two operations on related objects (m0, its parent ch0, sibling m1, new child m9), through the
     classic (iface 0) or the entity interface (iface 1).
     op: 0 none, 1 update descriptor m0, 2 update state of m0 (classic: needs op1 == 1 before), 3 update parent ch0,
         4 create m9 (+state) under ch0, 5 remove m1, 6 remove m0, 7 remove the parent ch0 (with its subtree),
-        8 remove the context descriptor lc0 (it owns TWO context states).
+        8 remove the context descriptor lc0 (it owns TWO context states), 9 create a second child m8 (+state) under ch0.
+    An optional third operation op3 (thorough tier; 0 = none).
     pre: 0 <= iface <= 1
-    pre: 0 <= op1 <= 8
-    pre: 0 <= op2 <= 8
+    pre: 0 <= op1 <= 9
+    pre: 0 <= op2 <= 9
+    pre: 0 <= op3 <= 9
     pre: dv >= 0
     pre: sv >= 0
     pre: mv >= 0
@@ -213,7 +215,7 @@ def descr_tx(iface: int, op1: int, op2: int, dv: int, sv: int, mv: int, pdv: int
         did = []
         try:
             with pm.descriptor_transaction() as tr:
-                for op in (op1, op2):
+                for op in (op1, op2, op3):
                     if op == 0:
                         continue
                     if op == 1:
@@ -242,12 +244,13 @@ def descr_tx(iface: int, op1: int, op2: int, dv: int, sv: int, mv: int, pdv: int
                             ent = pm.entities.by_handle('ch0')
                             ent.descriptor.SafetyClassification = pm_types.SafetyClassification.MED_B
                             tr.write_entity(ent)
-                    elif op == 4:
+                    elif op in (4, 9):
+                        nh = 'm9' if op == 4 else 'm8'
                         if iface == 0:
-                            nd, ns = _new_metric(pm, 'm9')
+                            nd, ns = _new_metric(pm, nh)
                             tr.add_descriptor(nd, state_container=ns)
                         else:
-                            ent = pm.entities.new_entity(pm.data_model.pm_names.StringMetricDescriptor, 'm9', 'ch0')
+                            ent = pm.entities.new_entity(pm.data_model.pm_names.StringMetricDescriptor, nh, 'ch0')
                             ent.descriptor.Unit = pm_types.CodedValue('u')
                             ent.descriptor.MetricCategory = pm_types.MetricCategory.MEASUREMENT
                             ent.descriptor.MetricAvailability = pm_types.MetricAvailability.CONTINUOUS
@@ -287,17 +290,29 @@ def descr_tx(iface: int, op1: int, op2: int, dv: int, sv: int, mv: int, pdv: int
                 orc.check(('d', 'm1') not in post_v and ('s', 'm1') not in post_v, 'removed-entity-still-present')
             if 6 in did:
                 orc.check(('d', 'm0') not in post_v and ('s', 'm0') not in post_v, 'removed-entity-still-present')
-            if (4 in did or 5 in did or 6 in did) and 7 not in did:
+            if (4 in did or 5 in did or 6 in did or 9 in did) and 7 not in did:
                 orc.check(('d', 'ch0') in post_v and post_v[('d', 'ch0')] > pdv, 'parent-version-not-increased-on-child-add-remove')
+            # what the transaction PUBLISHES: per descriptor a strictly increasing sequence of versions that ends at the MDIB's
+            published = {}
+            for d in list(pm.transaction.descr_created) + list(pm.transaction.descr_updated):
+                published.setdefault(d.Handle, []).append(d.DescriptorVersion)
+            for h in sorted(published):
+                vs = published[h]
+                for a_, b_ in zip(vs, vs[1:]):
+                    orc.check(b_ > a_, 'published-descriptor-versions-not-increasing')
+                if ('d', h) in post_v:
+                    orc.check(vs[-1] == post_v[('d', h)], 'last-published-descriptor-version!=mdib')
+                if ('d', h) in pre_v:
+                    orc.check(vs[0] > pre_v[('d', h)], 'published-descriptor-version-not-new')
             if 7 in did:
-                for h in ('ch0', 'm0', 'm1', 'm9'):
+                for h in ('ch0', 'm0', 'm1', 'm9', 'm8'):
                     orc.check(('d', h) not in post_v and ('s', h) not in post_v, 'removed-subtree-still-present')
                 orc.check(post_v[('d', 'vmd0')] > pre_v[('d', 'vmd0')], 'parent-version-not-increased-on-child-add-remove')
             # objects the transaction did not name and that are not the parent keep version and content
             if 8 in did:
                 orc.check(('d', 'lc0') not in post_v and ('c', 'lcs0') not in post_v and ('c', 'lcs1') not in post_v,
                           'removed-context-descriptor-or-its-states-still-present')
-            named = {('d', 'm0'), ('s', 'm0'), ('d', 'ch0'), ('s', 'ch0'), ('d', 'm1'), ('s', 'm1'), ('d', 'm9'), ('s', 'm9'),
+            named = {('d', 'm0'), ('s', 'm0'), ('d', 'ch0'), ('s', 'ch0'), ('d', 'm1'), ('s', 'm1'), ('d', 'm9'), ('s', 'm9'), ('d', 'm8'), ('s', 'm8'),
                      ('d', 'vmd0'), ('s', 'vmd0'), ('d', 'lc0'), ('c', 'lcs0'), ('c', 'lcs1'), ('d', 'sc0'), ('s', 'sc0')}
             post_c = _content(pm)
             for key, old in pre_v.items():
